@@ -87,7 +87,7 @@ def skipWhitespace : List Char → Pos → LS
 def skipToNextLine : List Char → Pos → LS
   | [], p => readChar ⟨[], p⟩
   | c :: r, p =>
-    if c != '\n' && c != NUL then skipToNextLine r (adv c r p) else readChar ⟨c :: r, p⟩
+    if c != '\n' then skipToNextLine r (adv c r p) else readChar ⟨c :: r, p⟩
 
 def isCommentStart (inp : List Char) : Bool :=
   ch inp == '#' || (ch inp == '/' && peekChar inp == '/')
